@@ -333,7 +333,7 @@ func loadBuiltinFromJSON() error {
 				appendBlockParameters(&returnType, method)
 			}
 
-			key := classDef.Frame + classDef.Class + method.Name
+			key := base.SignatureKey(classDef.Frame, classDef.Class, method.Name, false)
 			if method.Document != "" || base.TSignatureDocument[key] == "" {
 				base.TSignatureDocument[key] = strings.ReplaceAll(method.Document, "\n", "<CR>")
 			}
@@ -354,7 +354,7 @@ func loadBuiltinFromJSON() error {
 				appendBlockParameters(&returnType, method)
 			}
 
-			key := classDef.Frame + classDef.Class + method.Name + "static"
+			key := base.SignatureKey(classDef.Frame, classDef.Class, method.Name, true)
 			if method.Document != "" || base.TSignatureDocument[key] == "" {
 				base.TSignatureDocument[key] = strings.ReplaceAll(method.Document, "\n", "<CR>")
 			}
